@@ -176,6 +176,9 @@ class Interp:
             return b
         if a is b:
             return a
+        if isinstance(a, VBox) != isinstance(b, VBox) and (isinstance(a, VBox) and a.kind in ('list', 'deque') or isinstance(b, VBox) and b.kind in ('list', 'deque')):
+            a = a.term if isinstance(a, VBox) else a
+            b = b.term if isinstance(b, VBox) else b
         if isinstance(a, tuple) and isinstance(b, tuple) and len(a) == len(b) and not (a and isinstance(a[0], tuple)):
             return tuple(self.ite(c, x, y) for x, y in zip(a, b))
         if isinstance(a, tuple) and isinstance(b, tuple):
